@@ -305,13 +305,19 @@ class RelaxationNoise(Noise):
         """
         if (isinstance(T, numbers.Real) and T > 0) or T is None:
             return [T] * N
-        elif isinstance(T, Iterable) and len(T) == N:
+        elif (
+            isinstance(T, Iterable)
+            and len(T) == N
+            and all(
+                t is None or (isinstance(t, numbers.Real) and t > 0) for t in T
+            )
+        ):
             return T
         else:
             raise ValueError(
                 "Invalid relaxation time T={},"
                 "either the length is not equal to the number of qubits, "
-                "or T is not a positive number.".format(T)
+                "or T (an entry of T) is not a positive number.".format(T)
             )
 
     def get_noisy_pulses(self, dims=None, pulses=None, systematic_noise=None):
